@@ -13,6 +13,7 @@ import Proofs.Derive
 import Props.C04
 import Proofs.ProjSrcFull
 import Proofs.ModelSrc
+import Proofs.ProxyReread
 namespace Pydap.C14
 open Pydap Pydap.Proxy
 
@@ -63,6 +64,19 @@ theorem C14_fresh_equiv (h : Heap) (w : WF h) (r : Nat) (s s' : Spec) (l : List 
 
 /-- the request read from a description is the request of the proxy it describes -/
 theorem C14_request_of_spec (t : Tmpl) (p : SeqProxy) : seqReq t p = specReq (specOf t p) := rfl
+
+/-- **Re-reading issues the GET the first read issued, and a read writes nothing else**: if reading object `r`
+    (a sequence: `__iter__`; an array proxy: `[idx]`) on heap `h` sends the request `q` over session `s`, then after
+    ANY history of derivations and reads on any objects the same read sends the same `q` over the same `s` — and the
+    read itself allocates no object and touches no template.  With "the answer to a GET is a function of the request"
+    (the server side: C13; the model's `answer`) this is "the original and all earlier derivations keep returning
+    exactly what they returned before" for sequences and arrays, stated on what is actually sent rather than on `obs`. -/
+theorem C14_reread_same_request (h : Heap) (w : WF h) (evs : List Ev) (r : Nat) (idx : List Idx) (ev : Ev)
+    (hev : ev = .iter r ∨ ev = .aget r idx) (s : Sess) (q : Req)
+    (hfirst : (step h ev).log = h.log ++ [(s, q)]) :
+    (step (run h evs) ev).log = (run h evs).log ++ [(s, q)] ∧
+    (step (run h evs) ev).objs = (run h evs).objs ∧ (step (run h evs) ev).tmpls = (run h evs).tmpls :=
+  reread_same_request h w evs r idx ev hev s q hfirst
 
 /-! ### variables and grids (`BaseType.__getitem__`, `GridType.__getitem__`, `output_grid` on and off)
 
@@ -126,6 +140,19 @@ example : (obs (openHeap ['u'] [] (some 7) ['s'] [['i'], ['f']] [(['a'], [3], fa
 example : specChain ⟨['u'], [['s']], [['i'], ['f']], [['i'], ['f']], false, [], [PSlice.all], some 7⟩
     [.cols [['f']], .ce [['s', '.', 'i', '>', '1']], .name ['f']]
     = some ⟨['u'], [['s'], ['f']], [], [], false, [['s', '.', 'i', '>', '1']], [PSlice.all], some 7⟩ := by decide
+
+-- `C14_reread_same_request`: the opened sequence read first; then `s[["f"]]`, a filter on the result, a slice of the
+-- original and a read of the derived object happen; the original still sends what it sent
+example :
+    let h := openHeap ['u'] [] (some 7) ['s'] [['i'], ['f']] [(['a'], [3], false)]
+    let evs := [Ev.getitem 0 (.cols [['f']]), .getitem 3 (.ce [['s', '.', 'f', '>', '1']]), .getitem 0 (.sl ⟨some 1, some 3, none⟩),
+                .iter 4, .aget 1 [Idx.int 0]]
+    (step h (.iter 0)).log = h.log ++ [(some 7, ⟨['u'], .dods, [['s']], [], []⟩)] ∧
+    (step (run h evs) (.iter 0)).log = (run h evs).log ++ [(some 7, ⟨['u'], .dods, [['s']], [], []⟩)] ∧
+    ((run h evs).log.map fun e => e.2.ids) = [[['s', '.', 'f']], [['a']]] := by
+  simp [run, step, stepWith, openHeap, seqGetitemWith, seqCopy, seqApply, pushObj, pushLog, seqReq, seqIds, joinDot,
+    dropTrailingAll, arrReq, combine, fixSlice, expandEll, zipFix, fixAxis, fixSl, toSlice, combine1, PSlice.all, orElse]
+  try decide
 
 /-- an opened dataset with array `a`, grid `g` (array `g.g` 2×3, maps `g.x`, `g.y`), `output_grid` on -/
 def exGrid : Heap :=
